@@ -79,12 +79,12 @@ def cases(tier, seed):  # noqa: ARG001
             yield {"kind": "api", "end": end, "blocks": nb if nb else 1 + (end * 7 + 3) % 12, "k": k}
             k += 1
     # configuration path: every family of the database (index resolved at run time)
-    per_family = 60 if thorough else 2
+    per_family = 60 if thorough else 4
     for rep in range(per_family):
         for fam in range(31):
             yield {"kind": "cfg", "fam": fam, "rep": rep}
     yield {"kind": "cfg_extra_families"}  # families beyond the 31 known at design time, if the database grew
-    for k in range(96 if thorough else 8):
+    for k in range(96 if thorough else 16):
         yield {"kind": "cli", "k": k}
     for k in range(200 if thorough else 2):
         yield {"kind": "bitflip_full", "k": k}
